@@ -27,6 +27,16 @@ theorem planOf_ok (db : Db) : âˆ€ (f : From) (c : Nat) (p : Plan), f.ok = true â
       simp only [hs, Option.map_some, Option.some.injEq] at h; subst h
       simp only [Plan.ok, Bool.and_eq_true]
       exact âŸ¨hok.1, ih c ps hok.2 hsâŸ©
+  | proj s es ih =>
+    intro c p hok h
+    simp only [From.ok] at hok
+    simp only [planOf] at h
+    cases hs : planOf db s c with
+    | none => simp [hs] at h
+    | some ps =>
+      simp only [hs, Option.map_some, Option.some.injEq] at h; subst h
+      simp only [Plan.ok]
+      exact ih c ps hok hs
   | join k l r on ihl ihr =>
     intro c p hok h
     simp only [From.ok, Bool.and_eq_true] at hok
